@@ -15,9 +15,9 @@
 #define OP2_KR_H
 
 #define KR_OK_E(p, n)  __CPROVER_is_fresh(p, n)
-#define KR_OK_U(p, n)  __CPROVER_rw_ok(p, n)
+#define KR_OK_U(p, n)  ((n) == 0 || __CPROVER_rw_ok(p, n))
 #define KR_ROK_E(p, n) __CPROVER_is_fresh(p, n)
-#define KR_ROK_U(p, n) __CPROVER_r_ok(p, n)
+#define KR_ROK_U(p, n) ((n) == 0 || __CPROVER_r_ok(p, n))
 
 #define KR_FITS(F, s, n)      (W(n) <= W(F##_LEN(s)) - W(F##_POS(s)))
 #define KR_FITS_OLD(F, s, n)  (W(n) <= W(F##_LEN_OLD(s)) - W(F##_POS_OLD(s)))
